@@ -6,9 +6,15 @@ from pyvc import verify, solve
 import contracts.core
 prog = Program()
 t0=time.time()
-rep = verify.verify_function(prog, REG, sys.argv[1] if len(sys.argv)>1 else 'Core.SystemManager.add_system')
-print('paths', rep.paths, 'obs', len(rep.obs), 'err', rep.error, time.time()-t0)
-solve.discharge(rep.obs, timeout_ms=20000)
-for ob in rep.obs:
+key = sys.argv[1] if len(sys.argv)>1 else 'Core.SystemManager.add_system'
+c = REG.contracts[key]
+allobs=[]
+for mode in c.modes:
+  for case in (c.cases or [None]):
+    rep = verify.verify_function(prog, REG, key, mode=mode, case=case)
+    print('paths', rep.paths, 'obs', len(rep.obs), 'err', rep.error, time.time()-t0)
+    allobs += rep.obs
+solve.discharge(allobs, timeout_ms=int(sys.argv[2]) if len(sys.argv)>2 else 20000)
+for ob in allobs:
     print(ob.result, f'{ob.time:.2f}', ob.name, ob.props)
 solve.close()
